@@ -47,6 +47,19 @@ fn name_for(pattern: &str, idx: u64) -> String {
 }
 
 pub fn check(c: &Case) -> Option<(String, String)> {
+    check_exdev(c, None).0
+}
+
+/// `exdev_at`: environment deviation — the k-th `rename` of the whole chain answers EXDEV (the archive
+/// directory is on another mount), so `move_file` must fall back to copy + delete and produce exactly the
+/// same directory.  Returns the verdict and the number of renames the chain issued.
+pub fn check_exdev(c: &Case, exdev_at: Option<usize>) -> (Option<(String, String)>, usize) {
+    let r = check_inner(c, exdev_at);
+    let n = crate::engine::fsfault::end().map_or(0, |(calls, _)| calls.len());
+    (r, n)
+}
+
+fn check_inner(c: &Case, exdev_at: Option<usize>) -> Option<(String, String)> {
     std::env::set_var("C07V", "envdir");
     std::env::remove_var("C07U");
     let sb = Sandbox::new();
@@ -105,6 +118,10 @@ pub fn check(c: &Case) -> Option<(String, String)> {
             Err(p) => return Some((format!("panic-build:{}", panic_site(&p)), p)),
         }
     };
+    if let Some(k) = exdev_at {
+        crate::engine::fsfault::begin(&sb.dir, crate::engine::fsfault::Plan { fail: vec![(k, libc::EXDEV)], snapshots: false, kinds: vec!["rename"] });
+        crate::engine::fsfault::arm();
+    }
     for k in 0..c.rolls {
         let content = format!("roll-{}", k).into_bytes();
         std::fs::write(sb.path(live), &content).unwrap();
@@ -244,6 +261,34 @@ pub fn run(ctx: &Ctx) -> Report {
     for (i, (s, d)) in bad {
         rep.violation(s, format!("{:?}: {}", cs[i], d), case_json(&cs[i]));
     }
+    // environment deviation: every single rename of a chain answers EXDEV once (copy + delete fallback)
+    let sub: Vec<&Case> = cs
+        .iter()
+        .filter(|c| !c.delete_roller && c.count >= 1 && c.count <= 3 && c.base <= 1 && !c.bystanders && (c.pattern == "arch/foo.{}.log" || c.pattern == "arch/{}/foo.log" || c.pattern == "arch/foo.{}.log.gz") && (c.initial.len() as u32 == c.count || c.initial.is_empty()))
+        .collect();
+    let ex: Vec<(u64, Vec<(usize, usize, (String, String))>)> = sub
+        .par_iter()
+        .enumerate()
+        .map(|(i, c)| {
+            let (_, n) = check_exdev(c, Some(usize::MAX));
+            let mut bad = vec![];
+            for k in 0..n {
+                if let (Some(m), _) = check_exdev(c, Some(k)) {
+                    bad.push((i, k, m));
+                }
+            }
+            (n as u64, bad)
+        })
+        .collect();
+    let mut n_exdev = 0;
+    for (n, bad) in ex {
+        n_exdev += n;
+        for (i, k, (s, d)) in bad {
+            rep.violation(format!("exdev:{}", s), format!("{:?} with rename #{} answering EXDEV: {}", sub[i], k, d), json!({"exdev_at": k, "case": case_json(sub[i])}));
+        }
+    }
+    rep.add("evaluations", n_exdev);
+    rep.set("exdev_fault_runs", n_exdev);
     for k in [2usize, 5, 8] {
         rep.sample(case_json(&cs[(ctx.seed as usize * 37 + cs.len() * k / 10) % cs.len()]));
     }
@@ -271,6 +316,13 @@ pub fn run(ctx: &Ctx) -> Report {
 }
 
 pub fn replay(case: &Value) -> Result<(), String> {
+    if let Some(k) = case.get("exdev_at").and_then(|k| k.as_u64()) {
+        let c = case_from_json(&case["case"]).ok_or("bad case")?;
+        return match check_exdev(&c, Some(k as usize)).0 {
+            None => Ok(()),
+            Some((s, d)) => Err(format!("exdev:{}: {}", s, d)),
+        };
+    }
     let c = case_from_json(case).ok_or("bad case")?;
     match check(&c) {
         None => Ok(()),
